@@ -142,4 +142,16 @@ theorem https_write_calls_src : https_write_calls = "normalizeTCP,isDoH,Pack,dns
 theorem json_edns_args_src : json_edns_args = "dns.MaxMsgSize, do" := by decide
 theorem json_edns_cond_src : json_edns_cond = "!do && !sde | sde" := by decide
 
+/-- DoQ (`validQUICMsg`, model: `validQUICMsg`): a query whose OPT record carries the
+edns-tcp-keepalive option is invalid; `serveQUICStream` tests it before anything is served. -/
+theorem quic_valid_conds_src :
+    quic_valid_conds = "opt != nil | option.Option() == dns.EDNS0TCPKEEPALIVE" := by decide
+theorem quic_valid_returns_src : quic_valid_returns = "false | true" := by decide
+theorem quic_stream_valid_cond_src :
+    quic_stream_valid_cond = "err != nil | !validQUICMsg(msg) | !written | err != nil" := by decide
+
+/-- `genErrorResponse` builds its message with `SetRcode` alone (the library's `SetReply` copies the
+first question only — model: `errResp qe`). -/
+theorem generr_calls_src : generr_calls = "SetRcode" := by decide
+
 end Agd.Tie.C08
